@@ -33,7 +33,7 @@ from beancount.core import account_types, data, getters, inventory, position as 
 from beancount.parser import parser as bparser, booking, printer  # noqa: E402
 
 D = decimal.Decimal
-TMP = '/tmp/C14'
+TMP = os.environ.get('C14_TMP', '/tmp/C14')
 
 ASSUMPTIONS = [
     'the lexer/parser inside Model/Statements.v covers only the sub-language of the two templates; it is tied to '
@@ -666,6 +666,21 @@ def spec_class(spec):
 # --------------------------------------------------------------------------
 # A. transform: model vs implementation
 
+def _transform_case(spec):
+    """-> ('skip', why) | ('case', Gallina expression of the model's result, implementation's canonical result)"""
+    try:
+        node = build_node(spec)
+    except beanquery.ParseError:
+        return ('skip', 'statement-text-not-parsable')
+    if node.summary_func and not is_identifier(node.summary_func):
+        return ('skip', 'summary-not-identifier')
+    try:
+        expr = f'o_tresult {stmt_coq(node)}'
+    except Unsupported as e:
+        return ('skip', 'unsupported-node:' + str(e)[:30])
+    return ('case', expr, real_transform(node))
+
+
 def run_transform(n_cases, rng, cov):
     specs, seen = [], set()
     # exhaustive core: every summary x with/without FROM, WHERE / pattern class
@@ -685,33 +700,24 @@ def run_transform(n_cases, rng, cov):
             specs.append(('J', 'text', p, 'units', None))
     while len(specs) < n_cases:
         specs.append(gen_spec(rng))
+    uniq = []
+    for spec in specs:
+        if spec not in seen:
+            seen.add(spec)
+            uniq.append(spec)
     cases, hist = [], {}
     skipped = {}
-    for spec in specs:
-        if spec in seen:
+    for spec, res in zip(uniq, core.pmap(_transform_case, uniq)):
+        if res[0] == 'skip':
+            skipped[res[1]] = skipped.get(res[1], 0) + 1
             continue
-        seen.add(spec)
-        try:
-            node = build_node(spec)
-        except beanquery.ParseError:
-            skipped['statement-text-not-parsable'] = skipped.get('statement-text-not-parsable', 0) + 1
-            continue
-        if node.summary_func and not is_identifier(node.summary_func):
-            skipped['summary-not-identifier'] = skipped.get('summary-not-identifier', 0) + 1
-            continue
-        try:
-            expr = f'o_tresult {stmt_coq(node)}'
-        except Unsupported as e:
-            skipped['unsupported-node:' + str(e)[:30]] = skipped.get('unsupported-node:' + str(e)[:30], 0) + 1
-            continue
-        cases.append((spec, node, expr))
+        cases.append((spec, res[1], res[2]))
         k = spec_class(spec)
         hist[k] = hist.get(k, 0) + 1
-    model = core.coq_eval('c14a', ['Base.PyValue', 'Model.Statements'], [c[2] for c in cases])
+    model = core.coq_eval('c14a', ['Base.PyValue', 'Model.Statements'], [c[1] for c in cases])
     violations = []
     nontrivial = set()
-    for (spec, node, _), m in zip(cases, model):
-        got = real_transform(node)
+    for (spec, _, got), m in zip(cases, model):
         nontrivial.add(repr(got))
         if got != m and len(violations) < 3:
             violations.append(core.Violation(
@@ -721,7 +727,7 @@ def run_transform(n_cases, rng, cov):
                 signature='transform:' + spec_class(spec)))
     cov['A_transform'] = {'statements': len(cases), 'distinct_results': len(nontrivial), 'skipped': skipped,
                           'histogram': dict(sorted(hist.items())),
-                          'samples': [list(map(str, c[0])) for c in cases[:6]]}
+                          'samples': [list(map(str, c[0])) for c in cases[:3] + cases[-5:]]}
     return len(cases), violations
 
 
@@ -1215,6 +1221,9 @@ def _with_ledger(text, fn):
 
 def stmt_fails(text, spec, kind):
     recs = _with_ledger(text, lambda path: check_ledger_statements((path, [tuple(spec)])))
+    if kind == 'balances-order':
+        keys = [tuple(k) for k in recs[0].get('keys') or []]
+        return keys != sorted(keys)
     return any(k == kind for k, _ in recs[0]['problems'])
 
 
@@ -1224,6 +1233,8 @@ def print_fails(text, from_index, kind):
 
 
 def shrink_ledger(text, fails, max_tests):
+    if os.environ.get('C14_NOSHRINK'):
+        return text
     blocks = _blocks(text)
     head, rest = blocks[0], blocks[1:]
     try:
@@ -1252,22 +1263,24 @@ def replay(rec):
 
 def run(tier, rng):
     thorough = tier == 'thorough'
+    smoke = tier == 'smoke'      # small run used for mutation testing of this harness
     cov = {'rule': 'A: transform_balances/transform_journal vs Model/Statements.v, AST = AST; '
                    'B: BALANCES/JOURNAL vs explicit SELECT (rows, datatypes, names; same exception class); '
                    'C: BALANCES order vs account_types sort key (Model.sorted_keys), sums and registers vs oracles; '
                    'D: PRINT selection vs Model.execute_print and predicates, printed text re-loaded = selected directives in order'}
     violations = []
     os.makedirs(TMP, exist_ok=True)
+    known = {k['signature'] for k in core.load_known('C14')}
 
     # A
     import time
     t0 = time.time()
-    n_a, v = run_transform(5000 if thorough else 700, rng, cov)
+    n_a, v = run_transform(5000 if thorough else 300 if smoke else 700, rng, cov)
     violations += v
     core.log(f'[C14] A transform: {n_a} statements, {time.time() - t0:.1f}s')
 
     # ledgers
-    n_ledgers = 24 if thorough else 6
+    n_ledgers = 20 if thorough else 2 if smoke else 6
     ledgers = []
     dir_hist, feat_hist = {}, {}
     for i in range(n_ledgers):
@@ -1288,7 +1301,7 @@ def run(tier, rng):
                       'generated_directives': dir_hist, 'features': dict(sorted(feat_hist.items()))}
 
     # B / C: split each ledger's statements into chunks so that the pool is busy
-    per_ledger = 260 if thorough else 84
+    per_ledger = 200 if thorough else 64
     jobs = []
     for path, text in ledgers:
         specs = ledger_specs(rng, per_ledger, thorough)
@@ -1365,7 +1378,7 @@ def run(tier, rng):
         path, r, why = items[0]
         fi = next(i for i, (fr, _) in enumerate(PRINT_FROM) if fr == r['from'])
         text = texts[path]
-        if kind != 'harness-exception':
+        if kind != 'harness-exception' and kind not in known:
             text = shrink_ledger(text, lambda t: print_fails(t, fi, kind), 24)
         violations.append(core.Violation(
             kind, f'{kind}: {r["query"]}: {why[:900]} ({len(items)} PRINT statements)',
